@@ -488,6 +488,197 @@ theorem format_extern_escape_counterexample :
     formatExtern (.explicit (cs% "a\"b")) true = cs% "extern \"a\"b\" " ∧
       readExtern (formatExtern (.explicit (cs% "a\"b")) true) = none := by decide
 
+/-! ## §6 attributes: merge_derives, normalize_doc_attributes (`impl Rewrite for [ast::Attribute]`) -/
+
+theorem rewriteAttrsGo_derive_seq (merge skip normDoc : Bool) :
+    ∀ (fuel : Nat) (attrs : List AttrIn) (out : List AttrOut), attrs.length ≤ fuel →
+      rewriteAttrsGo merge skip normDoc fuel attrs = some out → deriveSeqOut out = deriveSeqIn attrs := by
+  intro fuel
+  induction fuel with
+  | zero =>
+    intro attrs out hlen h
+    have : attrs = [] := by cases attrs <;> simp_all
+    subst this
+    simp [rewriteAttrsGo] at h; subst h; simp [deriveSeqOut, deriveSeqIn]
+  | succ fuel ih =>
+    intro attrs out hlen h
+    cases attrs with
+    | nil => simp [rewriteAttrsGo] at h; subst h; simp [deriveSeqOut, deriveSeqIn]
+    | cons a rest =>
+      simp only [rewriteAttrsGo] at h
+      by_cases hnd : takeRun Attr.isDocComment (a :: rest) > 0
+      · -- a run of doc comments
+        simp only [hnd, if_true] at h
+        generalize hn : takeRun Attr.isDocComment (a :: rest) = nd at *
+        have hle := takeRun_le Attr.isDocComment (a :: rest)
+        rw [hn] at hle
+        cases hr : rewriteAttrsGo merge skip normDoc fuel ((a :: rest).drop nd) with
+        | none => simp [hr] at h
+        | some r =>
+          simp only [hr, Option.map_some, Option.some.injEq] at h
+          subst h
+          have hrec := ih ((a :: rest).drop nd) r (by simp [List.length_drop] at hlen ⊢; omega) hr
+          have hdocs := deriveSeqIn_docs ((a :: rest).take nd)
+            (by rw [← hn]; exact takeRun_pred Attr.isDocComment (a :: rest))
+          have hsplit : a :: rest = (a :: rest).take nd ++ (a :: rest).drop nd := (List.take_append_drop _ _).symm
+          conv => rhs; rw [hsplit, deriveSeqIn_append, hdocs]
+          simp [deriveSeqOut, hrec, Function.comp_def]
+      · simp only [hnd, if_false] at h
+        by_cases hd : (!skip && merge && a.attr.isDerive) = true
+        · -- a run of derives
+          simp only [hd, if_true] at h
+          generalize hn : takeRun Attr.isDerive (a :: rest) = n at *
+          have hle := takeRun_le Attr.isDerive (a :: rest)
+          rw [hn] at hle
+          have hpos : n ≥ 1 := by
+            rw [← hn]; exact takeRun_pos _ _ _ (by simp only [Bool.and_eq_true] at hd; exact hd.2)
+          cases hc : collectPaths ((a :: rest).take n) with
+          | none => simp [hc] at h
+          | some ps =>
+            simp only [hc] at h
+            cases hr : rewriteAttrsGo merge skip normDoc fuel ((a :: rest).drop n) with
+            | none => simp [hr] at h
+            | some r =>
+              simp only [hr, Option.map_some, Option.some.injEq] at h
+              subst h
+              have hrec := ih ((a :: rest).drop n) r (by simp [List.length_drop] at hlen ⊢; omega) hr
+              have hsplit : a :: rest = (a :: rest).take n ++ (a :: rest).drop n := (List.take_append_drop _ _).symm
+              conv => rhs; rw [hsplit, deriveSeqIn_append, deriveSeqIn_derives _ _ hc]
+              simp [deriveSeqOut, hrec]
+        · -- one attribute
+          have hd' : (!skip && merge && a.attr.isDerive) = false := by simpa using hd
+          simp only [hd', Bool.false_eq_true, if_false] at h
+          cases hr : rewriteAttrsGo merge skip normDoc fuel rest with
+          | none => simp [hr] at h
+          | some r =>
+            simp only [hr, Option.map_some, Option.some.injEq] at h
+            subst h
+            have hrec := ih rest r (by simp at hlen; omega) hr
+            cases hattr : a.attr with
+            | derive o => cases o <;> simp [deriveSeqOut, deriveSeqIn, hattr, hrec]
+            | docComment t => simp [deriveSeqOut, deriveSeqIn, hattr, hrec]
+            | docAttr i v =>
+              by_cases hnorm : (normDoc && !a.lineComment) = true <;>
+                simp [deriveSeqOut, deriveSeqIn, hattr, hrec, hnorm]
+            | other t => simp [deriveSeqOut, deriveSeqIn, hattr, hrec]
+
+/-- **Sound.**  Whatever the options and the gaps: the derived paths of the printed attribute list are those of the
+source — same paths, same order, duplicates kept — and no derive has moved across anything that is not a derive. -/
+theorem merge_derives_sound (merge skip normDoc : Bool) (attrs : List AttrIn) (out : List AttrOut)
+    (h : rewriteAttrs merge skip normDoc attrs = some out) : deriveSeqOut out = deriveSeqIn attrs :=
+  rewriteAttrsGo_derive_seq merge skip normDoc attrs.length attrs out (Nat.le_refl _) h
+
+/-- **Two neighbouring derives are merged exactly when** the option is on, `derive` is not under
+`#[rustfmt::skip::attributes(..)]`, and between them there is neither a blank line (two line feeds) nor a `/`
+(a comment). -/
+theorem merge_derives_exact (merge skip normDoc : Bool) (p q : List Str) (k : Nat) (sl lc lc' : Bool) (k' : Nat) (sl' : Bool) :
+    rewriteAttrs merge skip normDoc [⟨.derive (some p), k, sl, lc⟩, ⟨.derive (some q), k', sl', lc'⟩] =
+      (if merge = true ∧ skip = false ∧ k < 2 ∧ sl = false then some [.derive (p ++ q)]
+       else if merge = true ∧ skip = false then some [.derive p, .derive q]
+       else some [.single (.derive (some p)), .single (.derive (some q))]) := by
+  by_cases hk : k < 2
+  · have hk' : ¬ (k ≥ 2) := by omega
+    cases merge <;> cases skip <;> cases sl <;>
+      simp [rewriteAttrs, rewriteAttrsGo, takeRun, Attr.isDocComment, Attr.isDerive, collectPaths, hk, hk']
+  · have hk' : k ≥ 2 := by omega
+    cases merge <;> cases skip <;> cases sl <;>
+      simp [rewriteAttrs, rewriteAttrsGo, takeRun, Attr.isDocComment, Attr.isDerive, collectPaths, hk, hk']
+
+/-- what stops a run: any other attribute (`#[cfg_attr(x, derive(E))]` is one) -/
+example : rewriteAttrs true false false
+    [⟨.derive (some [cs% "A"]), 1, false, false⟩, ⟨.other (cs% "#[cfg_attr(x, derive(E))]"), 1, false, false⟩,
+     ⟨.derive (some [cs% "B"]), 0, false, false⟩] =
+    some [.derive [cs% "A"], .single (.other (cs% "#[cfg_attr(x, derive(E))]")), .derive [cs% "B"]] := by decide
+/-- duplicates are kept, the order is the source's -/
+example : rewriteAttrs true false false
+    [⟨.derive (some [cs% "B", cs% "A"]), 1, false, false⟩, ⟨.derive (some [cs% "A"]), 0, false, false⟩] =
+    some [.derive [cs% "B", cs% "A", cs% "A"]] := by decide
+/-- the edge branch: a `#[derive]` without a list makes `format_derive` give up — the whole list is left as written -/
+theorem merge_derives_unparseable (normDoc : Bool) (k : Nat) (sl lc : Bool) :
+    rewriteAttrs true false normDoc [⟨.derive none, k, sl, lc⟩] = none := by
+  simp [rewriteAttrs, rewriteAttrsGo, takeRun, Attr.isDocComment, Attr.isDerive, collectPaths]
+
+/-- `str::lines` on a text without `\r` that does not end in a line feed is the split at line feeds -/
+theorem strLines_eq_splitLF (v : Str) (hne : v ≠ []) (hcr : '\r' ∉ v) (hlast : v.getLast? ≠ some '\n') :
+    strLines v = splitLF v := by
+  simp only [strLines]
+  have hnl := splitLF_ne_nil v
+  have hlastpiece : (splitLF v).getLast? ≠ some [] := by
+    intro h
+    rcases (splitLF_getLast v).mp h with h | h
+    · exact hne h
+    · exact hlast h
+  -- no piece has a `\r`
+  have hpieces : ∀ l ∈ splitLF v, '\r' ∉ l := by
+    intro l hl hm
+    have := mem_joinWith ['\n'] (splitLF v) l hl hm
+    rw [joinWith_splitLF v] at this
+    exact hcr this
+  have hstrip : ∀ l ∈ (splitLF v).dropLast, stripCR l = l := by
+    intro l hl
+    have hm := hpieces l (mem_of_mem_dropLast' hl)
+    unfold stripCR
+    split
+    · rename_i hh
+      exact absurd (List.mem_of_getLast? (by simpa using hh)) hm
+    · rfl
+  rw [List.map_congr_left hstrip, List.map_id']
+  cases hg : (splitLF v).getLast? with
+  | none => simp [List.getLast?_eq_none_iff] at hg; exact absurd hg hnl
+  | some l =>
+    have hl : l ≠ [] := by intro e; subst e; exact hlastpiece hg
+    have : l.isEmpty = false := by cases l <;> simp_all
+    simp only [this]
+    have := dropLast_append_last _ l hg
+    simpa using this
+
+/-- **Sound (partial).**  `#[doc = "v"]` → `///…` lines stand for the same documentation string `v`, when `v` has no
+`\r` and does not end in a line feed. -/
+theorem normalize_doc_value_partial (inner : Bool) (v : Str) (hcr : '\r' ∉ v) (hlast : v.getLast? ≠ some '\n') :
+    docValue (docCommentText inner v) = v := by
+  by_cases hne : v = []
+  · subst hne; cases inner <;> decide
+  · have hl := strLines_eq_splitLF v hne hcr hlast
+    have hnl := splitLF_ne_nil v
+    unfold docCommentText docValue
+    rw [hl]
+    generalize hop : (if inner = true then cs% "//!" else cs% "///") = opener
+    have hoplen : opener.length = 3 := by cases inner <;> simp [← hop]
+    have hopnl : '\n' ∉ opener := by cases inner <;> simp [← hop]
+    cases hs : splitLF v with
+    | nil => exact absurd hs hnl
+    | cons x r =>
+      simp only
+      have hno := splitLF_no_lf v
+      rw [hs] at hno
+      rw [splitLF_joinWith _ (by simp) (by
+        intro l hl
+        simp only [List.mem_map] at hl
+        obtain ⟨y, hy, rfl⟩ := hl
+        simp only [List.mem_append, not_or]
+        exact ⟨hopnl, hno y hy⟩)]
+      rw [List.map_map]
+      have : ((fun x => List.drop 3 x) ∘ fun x => opener ++ x) = id := by
+        funext y; simp [← hoplen]
+      rw [this, List.map_id, ← hs, joinWith_splitLF]
+
+example : docCommentText false (cs% " a\n b") = cs% "/// a\n/// b" := by decide
+example : docCommentText true [] = cs% "//!" := by decide
+
+/-- **A last line feed is lost**: `#[doc = "a\n"]` becomes `///a`, which stands for `a`. -/
+theorem normalize_doc_trailing_lf_counterexample :
+    docCommentText false (cs% "a\n") = cs% "///a" ∧ docValue (docCommentText false (cs% "a\n")) ≠ cs% "a\n" := by decide
+
+/-- **`\r\n` becomes `\n`** (`str::lines` drops the `\r`). -/
+theorem normalize_doc_crlf_counterexample :
+    docValue (docCommentText false (cs% "a\r\nb")) = cs% "a\nb" := by decide
+
+/-- the repair: a doc attribute with a comment behind it on its line is not turned into a line comment (the comment would
+become part of the documentation text) -/
+theorem normalize_doc_line_comment_guard (merge skip : Bool) (i : Bool) (v : Str) (k : Nat) (sl : Bool) :
+    rewriteAttrs merge skip true [⟨.docAttr i v, k, sl, true⟩] = some [.single (.docAttr i v)] := by
+  simp [rewriteAttrs, rewriteAttrsGo, takeRun, Attr.isDocComment, Attr.isDerive]
+
 /-! ## §7 leading pipes, arm commas, semicolons -/
 
 /-- **Exact**: a `| ` is printed in front of an arm iff the option says `Always`, or `Preserve` and the source had one -/
